@@ -26,6 +26,7 @@ import (
 
 type VariantRun struct {
 	Tests    bool
+	Cache    string // cold / warm CLI cache
 	Variants []VariantResult
 	CLI      []CLIProblem
 	Stderr   string `json:",omitempty"`
@@ -44,11 +45,13 @@ type CLIProblem struct {
 	Message string
 }
 type VariantOutput struct {
-	Runs    []VariantRun
-	Module  []SrcFile // the generated module (paths relative to the module root)
-	Coq     string    `json:"-"`
-	Errors  []string
-	Stats   map[string]int
+	Runs      []VariantRun
+	Module    []SrcFile // the generated module (paths relative to the module root)
+	Coq       string    `json:"-"`
+	Errors    []string
+	Notes     []string // differences between the runner's loaded results and the direct analysis
+	Stats     map[string]int
+	CoqRunner string `json:"-"`
 }
 
 func genVariantModule(r *hx.Rand, npkgs int) []SrcFile {
@@ -120,6 +123,37 @@ func genVariantModule(r *hx.Rand, npkgs int) []SrcFile {
 			lineRefs = []string{"beforeLine()", "viaLine()"}
 		}
 		out = append(out, SrcFile{pk + "/a.go", a.String()}, SrcFile{pk + "/b.go", bfile.String()})
+		// unexported types with EXPORTED methods (sort.Interface style, pointer receivers, embedded in another unexported
+		// struct), referenced only from the in-package test / only from the external test (through export_test.go)
+		out = append(out, SrcFile{pk + "/c.go", "package " + pk + `
+
+type byName []int
+
+func (b byName) Len() int           { return len(b) }
+func (b byName) Less(i, j int) bool { return b[i] < b[j] }
+func (b byName) Swap(i, j int)      { b[i], b[j] = b[j], b[i] }
+func (b byName) lower()             {}
+
+type byPtr struct{ n int }
+
+func (p *byPtr) Reset()     { p.n = 0 }
+func (p *byPtr) Count() int { return p.n }
+
+type inner struct{}
+
+func (inner) Describe() string { return "" }
+
+type outer struct{ inner }
+
+type byExt []int
+
+func (b byExt) Len() int           { return len(b) }
+func (b byExt) Less(i, j int) bool { return false }
+func (b byExt) Swap(i, j int)      {}
+`})
+		if hasIn {
+			lineRefs = append(lineRefs, "_ = byName{}", "_ = &byPtr{}", "_ = outer{}")
+		}
 		if hasIn {
 			var t strings.Builder
 			t.WriteString("package " + pk + "\n\nimport \"testing\"\n\n")
@@ -134,8 +168,9 @@ func genVariantModule(r *hx.Rand, npkgs int) []SrcFile {
 		if hasExt {
 			var t strings.Builder
 			t.WriteString("package " + pk + "_test\n\nimport (\n\t\"testing\"\n\n\t\"example.com/v/" + pk + "\"\n)\n\n")
-			t.WriteString("func TestX(t *testing.T) {\n\t" + pk + ".F0()\n\text0()\n}\n\nfunc ext0() {}\n\nfunc ext1() {}\n\n")
+			t.WriteString("func TestX(t *testing.T) {\n\t" + pk + ".F0()\n\text0()\n\t_ = " + pk + ".NewByExt().Len()\n}\n\nfunc ext0() {}\n\nfunc ext1() {}\n\n")
 			out = append(out, SrcFile{pk + "/x_test.go", t.String()})
+			out = append(out, SrcFile{pk + "/export_test.go", "package " + pk + "\n\nfunc NewByExt() interface{ Len() int } { return byExt{} }\n"})
 		}
 		if r.Chance(20) {
 			out = append(out, SrcFile{pk + "/staticcheck.conf", "checks = [\"all\", \"-U1000\"]\n"})
@@ -153,7 +188,7 @@ func RunVariants(r *hx.Rand, dir, staticcheck string, npkgs int) *VariantOutput 
 	for _, f := range mod {
 		hx.WriteFile(filepath.Join(root, f.Name), f.Src)
 	}
-	var cases []string
+	var cases, rcases []string
 	for _, tests := range []bool{true, false} {
 		run := VariantRun{Tests: tests}
 		// --- per-variant results from the real runner
@@ -176,7 +211,21 @@ func RunVariants(r *hx.Rand, dir, staticcheck string, npkgs int) *VariantOutput 
 			vo.Errors = append(vo.Errors, "runner: "+err.Error())
 			continue
 		}
-		var vres []string
+		// ground truth: every variant analysed directly (unused.Analyzer.Run on the type-checked variant), independent
+		// of the runner's serialisation and cache
+		direct := map[string]*Pkg{}
+		dpkgs, dskipped := LoadDirTests(root, tests, "./...")
+		for _, sk := range dskipped {
+			vo.Errors = append(vo.Errors, "direct load: "+sk)
+		}
+		for _, dp := range dpkgs {
+			if err := dp.Analyze(); err != nil {
+				vo.Errors = append(vo.Errors, fmt.Sprintf("direct analysis of %s: %v", dp.Name, err))
+				continue
+			}
+			direct[dp.Name] = dp
+		}
+		var vres, dres []string
 		for _, res := range results {
 			if res.Failed {
 				vo.Errors = append(vo.Errors, fmt.Sprintf("package %s failed: %v", res.Package.ID, res.Errors))
@@ -197,6 +246,16 @@ func RunVariants(r *hx.Rand, dir, staticcheck string, npkgs int) *VariantOutput 
 			}
 			run.Variants = append(run.Variants, vr)
 			vres = append(vres, fmt.Sprintf("mkRes %s %v %s %s", CoqString(res.Package.PkgPath), allowed, coqObjs(data.Unused.Used, root), coqObjs(data.Unused.Unused, root)))
+			if dp, ok := direct[res.Package.ID]; ok {
+				dres = append(dres, fmt.Sprintf("mkRes %s %v %s %s", CoqString(res.Package.PkgPath), allowed, coqObjs(dp.Result.Used, root), coqObjs(dp.Result.Unused, root)))
+				vo.Stats["variants_direct"]++
+				if len(dp.Result.Used) != len(data.Unused.Used) || len(dp.Result.Unused) != len(data.Unused.Unused) {
+					vo.Notes = append(vo.Notes, fmt.Sprintf("%s: runner result after Load has %d used / %d unused objects, direct analysis %d / %d",
+						res.Package.ID, len(data.Unused.Used), len(data.Unused.Unused), len(dp.Result.Used), len(dp.Result.Unused)))
+				}
+			} else if !strings.HasSuffix(res.Package.ID, ".test") {
+				vo.Errors = append(vo.Errors, "no direct analysis for variant "+res.Package.ID)
+			}
 			vo.Stats["variants"]++
 			vo.Stats["unused_listed"] += len(data.Unused.Unused)
 		}
@@ -206,54 +265,61 @@ func RunVariants(r *hx.Rand, dir, staticcheck string, npkgs int) *VariantOutput 
 			args = append(args, "-tests=false")
 		}
 		args = append(args, "./...")
-		cmd := exec.Command(staticcheck, args...)
-		cmd.Dir = root
-		cmd.Env = append(hx.GoEnv(), "STATICCHECK_CACHE="+filepath.Join(dir, fmt.Sprintf("cli-cache-%v", tests)))
-		var stdout, stderr bytes.Buffer
-		cmd.Stdout, cmd.Stderr = &stdout, &stderr
-		err = cmd.Run()
-		if ee, ok := err.(*exec.ExitError); err != nil && (!ok || ee.ExitCode() > 1) {
-			vo.Errors = append(vo.Errors, fmt.Sprintf("staticcheck %v: %v: %s", args, err, stderr.String()))
-			continue
-		}
-		run.Stderr = stderr.String()
-		var cli []string
-		dec := json.NewDecoder(&stdout)
-		for dec.More() {
-			var d struct {
-				Code     string
-				Location struct {
-					File   string
-					Line   int
-					Column int
-				}
-				Message string
-			}
-			if err := dec.Decode(&d); err != nil {
-				vo.Errors = append(vo.Errors, "CLI output: "+err.Error())
-				break
-			}
-			if d.Code == "compile" {
-				vo.Errors = append(vo.Errors, "CLI reports a compile error: "+d.Message)
-			}
-			if d.Code != "U1000" {
+		for _, temp := range []string{"cold", "warm"} {
+			cmd := exec.Command(staticcheck, args...)
+			cmd.Dir = root
+			cmd.Env = append(hx.GoEnv(), "STATICCHECK_CACHE="+filepath.Join(dir, fmt.Sprintf("cli-cache-%v", tests)))
+			var stdout, stderr bytes.Buffer
+			cmd.Stdout, cmd.Stderr = &stdout, &stderr
+			err = cmd.Run()
+			if ee, ok := err.(*exec.ExitError); err != nil && (!ok || ee.ExitCode() > 1) {
+				vo.Errors = append(vo.Errors, fmt.Sprintf("staticcheck %v: %v: %s", args, err, stderr.String()))
 				continue
 			}
-			run.CLI = append(run.CLI, CLIProblem{d.Location.File, d.Location.Line, d.Location.Column, d.Message})
-			cli = append(cli, fmt.Sprintf("(%s, %d, %d, %s)", CoqString(strings.TrimPrefix(d.Location.File, root+"/")), d.Location.Line, d.Location.Column, CoqString(d.Message)))
-			vo.Stats["cli_problems"]++
-		}
-		sort.Slice(run.CLI, func(i, j int) bool {
-			a, b := run.CLI[i], run.CLI[j]
-			if a.File != b.File {
-				return a.File < b.File
+			run := run
+			run.CLI = nil
+			run.Cache = temp
+			run.Stderr = stderr.String()
+			var cli []string
+			dec := json.NewDecoder(&stdout)
+			for dec.More() {
+				var d struct {
+					Code     string
+					Location struct {
+						File   string
+						Line   int
+						Column int
+					}
+					Message string
+				}
+				if err := dec.Decode(&d); err != nil {
+					vo.Errors = append(vo.Errors, "CLI output: "+err.Error())
+					break
+				}
+				if d.Code == "compile" {
+					vo.Errors = append(vo.Errors, "CLI reports a compile error: "+d.Message)
+				}
+				if d.Code != "U1000" {
+					continue
+				}
+				run.CLI = append(run.CLI, CLIProblem{d.Location.File, d.Location.Line, d.Location.Column, d.Message})
+				cli = append(cli, fmt.Sprintf("(%s, %d, %d, %s)", CoqString(strings.TrimPrefix(d.Location.File, root+"/")), d.Location.Line, d.Location.Column, CoqString(d.Message)))
+				vo.Stats["cli_problems"]++
 			}
-			return a.Line < b.Line
-		})
-		cases = append(cases, fmt.Sprintf("mkV [%s]\n [%s]", strings.Join(vres, ";\n "), strings.Join(cli, ";\n ")))
-		vo.Runs = append(vo.Runs, run)
+			sort.Slice(run.CLI, func(i, j int) bool {
+				a, b := run.CLI[i], run.CLI[j]
+				if a.File != b.File {
+					return a.File < b.File
+				}
+				return a.Line < b.Line
+			})
+			cases = append(cases, fmt.Sprintf("mkV [%s]\n [%s]", strings.Join(dres, ";\n "), strings.Join(cli, ";\n ")))
+			rcases = append(rcases, fmt.Sprintf("mkV [%s]\n [%s]", strings.Join(vres, ";\n "), strings.Join(cli, ";\n ")))
+			vo.Runs = append(vo.Runs, run)
+		}
 	}
 	vo.Coq = "Definition casesV : list caseV := [\n" + strings.Join(cases, ";\n") + "\n].\n"
+	vo.CoqRunner = "Definition casesR : list caseV := [\n" + strings.Join(rcases, ";\n") + "\n].\n"
 	return vo
 }
 
